@@ -2,7 +2,7 @@
    (C04_sessions_as_if_alone ...) and the QUIC demultiplexer (C04_quic_...: addresses first, then connection IDs). *)
 From Coq Require Import ZArith List Bool.
 From Coq Require String.
-Require Import PyLib SuiteTypes Crypto KeySchedule Packet TlsSession Main C04P QuicIdP QuicDemuxP.
+Require Import PyLib SuiteTypes Crypto KeySchedule Packet TlsSession Main C04P QuicIdP QuicDemuxP OwnKeysP.
 Import ListNotations.
 Open Scope Z_scope.
 
@@ -54,3 +54,23 @@ Theorem C04_quic_one_datagram : forall C o ftable kl q p ss ss', respects q ss p
   if same_flowb q p then handle_quic_packet C o ftable kl (qproj q ss) p = Ok (qproj q ss') else qproj q ss' = qproj q ss.
 Proof. exact handle_quic_proj. Qed.
 Print Assumptions C04_quic_one_datagram.
+
+(* ---------------- the shared key log ---------------- *)
+(* A session reads the key log only through the lines that carry its own client random: two key logs whose lines with that client
+   random are the same -- whatever lines of other connections are added, removed or shuffled around them -- make the session handle
+   every record identically (TLS) / install the same keys (QUIC).  No connection's keys ever reach another connection. *)
+Theorem C04_own_keylog_lines_tls : forall C tbl parts kl1 kl2 s r srv,
+  own_lines (ts_client_random s) kl1 = own_lines (ts_client_random s) kl2 ->
+  handle_tls_record C tbl parts kl1 s r srv = handle_tls_record C tbl parts kl2 s r srv.
+Proof. exact tls_record_own_lines. Qed.
+Print Assumptions C04_own_keylog_lines_tls.
+
+Theorem C04_own_keylog_lines_quic : forall C kl1 kl2 s cr cs, own_lines cr kl1 = own_lines cr kl2 ->
+  QuicSession.set_tls_decryptors C kl1 s cr cs = QuicSession.set_tls_decryptors C kl2 s cr cs.
+Proof. exact quic_keys_own_lines. Qed.
+Print Assumptions C04_own_keylog_lines_quic.
+
+(* lines of other connections inserted anywhere do not change a connection's own lines *)
+Theorem C04_foreign_lines_anywhere : forall cr a foreign b, Forall (fun k => bytes_eqb (KeySchedule.s_random k) cr = false) foreign ->
+  own_lines cr (a ++ foreign ++ b) = own_lines cr (a ++ b).
+Proof. exact own_lines_insert. Qed.
